@@ -4,6 +4,10 @@ import json, os, sys
 HERE = os.path.dirname(os.path.abspath(__file__))
 
 CHECKS = {
+ 'C04': dict(technique='runtime monitor: per-sample tolerance arithmetic on known samples (harness-defined Scripted sampling set, closed-form formula families) vs grader verdict/credit; tap on the within_tolerance binding re-deciding every comparison incl. argument order',
+             text='Exploration by runtime monitoring: Formula/Numerical/Matrix graders with scripted samples are called on answer+delta, answer*(1+eps), sign/branch variants failing on a chosen number of samples, bit-exact and rounding-changing rewrites, exact integer boundary cases, Frobenius-vs-max-abs and relative-to-which-operand discriminating cases and infinities, over the tolerance x samples x failable_evals grid; the verdict and credit are compared with the oracle count of failing samples, and every (expected, student, tolerance) comparison the library made is re-decided.',
+             note='Trusted: closed-form values in Python floats; a 1e-9 relative guard band around the tolerance boundary is excluded except for exactly representable boundary cases.',
+             ref='DESIGN.md section 4, C04'),
  'C13': dict(technique='runtime monitor: completeness/consistency predicate over every sample dict from gen_symbols_samples (direct calls on generated DAGs in all declaration orders) and from a tap on the binding the graders use; closed-form references for dependent formulas; recording user functions',
              text='Exploration by runtime monitoring: dependency DAGs of up to 8 variables in every declaration order (<=5 variables exhaustively), cyclic/dangling/failing-formula variants (must be ConfigError within the CPU budget), grader calls with numbered variables (negative and multi-digit indices, colliding plain names), dependent chains declared in random order and sibling formulas; every sample dict seen is checked for missing variables/constants, sampler membership and dependent-value consistency on the same sample.',
              note='Trusted: template formulas with closed-form Python references; the tap is a pass-through wrapper of math_helpers.gen_symbols_samples.',
